@@ -62,6 +62,20 @@ Theorem C13_fields_recovered : forall flag m, wf_msg m ->
 Proof. exact (fields_recovered src_json_cfg C13_source_configuration_good). Qed.
 Print Assumptions C13_fields_recovered.
 
+(* numeric attribute values: whatever numeric QVariant type carries the integer z (int, uint, qlonglong,
+   qulonglong, double, float) inside the range of that type (|z| <= 2^53), the record holds the number z,
+   and the decimal text of a number identifies it (2147483648 held by a uint does not come back as
+   -2147483648) *)
+Theorem C13_numeric_types_recovered : forall flag m pre k t z post, wf_msg m ->
+  mattrs m = pre ++ (k, num_value t z) :: post -> has_key k post = false -> num_in_range t z = true ->
+  exists kv, parse_doc (json_format src_json_cfg flag m) = Some (JObj kv) /\ look k kv = Some (JNum z).
+Proof. exact (numeric_attribute_recovered src_json_cfg C13_source_configuration_good). Qed.
+Print Assumptions C13_numeric_types_recovered.
+
+Theorem C13_number_text_identifies_value : forall a b, num_chars a = num_chars b -> a = b.
+Proof. exact num_chars_inj. Qed.
+Print Assumptions C13_number_text_identifies_value.
+
 (* and nothing else: the record has no member that is neither a built-in field nor an attribute of this message *)
 Theorem C13_nothing_else : forall flag m, wf_msg m ->
   exists kv, parse_doc (json_format src_json_cfg flag m) = Some (JObj kv)
@@ -124,3 +138,15 @@ Example C13_nonvacuous :
   /\ prop_c13_b true ex_msg (json_format src_json_cfg true ex_msg) = true
   /\ parse_doc (json_format src_json_cfg false ex_msg) = Some (sort_keys (all_attributes src_json_cfg ex_msg)).
 Proof. vm_compute. repeat split. Qed.
+(* non-vacuity of the numeric types: the boundary values are inside the ranges, the stored number is the
+   value, and one step outside the 32-bit ranges the C++ conversion (and the model) wraps *)
+Example C13_numeric_nonvacuous :
+  map (fun tz => (num_in_range (fst tz) (snd tz), num_value (fst tz) (snd tz)))
+      [(TInt, 2147483647%Z); (TUInt, 2147483648%Z); (TUInt, 4294967295%Z); (TULongLong, 9007199254740992%Z);
+       (TLongLong, (-9007199254740992)%Z); (TDouble, 9007199254740992%Z); (TFloat, (-16777216)%Z)]
+  = [(true, JNum 2147483647%Z); (true, JNum 2147483648%Z); (true, JNum 4294967295%Z); (true, JNum 9007199254740992%Z);
+     (true, JNum (-9007199254740992)%Z); (true, JNum 9007199254740992%Z); (true, JNum (-16777216)%Z)]
+  /\ (num_in_range TInt 2147483648%Z, num_value TInt 2147483648%Z) = (false, JNum (-2147483648)%Z)
+  /\ (num_in_range TUInt (-1)%Z, num_value TUInt (-1)%Z) = (false, JNum 4294967295%Z)
+  /\ num_chars 2147483648%Z <> num_chars (-2147483648)%Z.
+Proof. vm_compute. repeat split. discriminate. Qed.
